@@ -195,6 +195,11 @@ pub fn segment(msgs: &[Vec<u8>], seg: Seg, pause: u64, rng: &mut Rng) -> Vec<Cli
     };
     cuts.sort();
     cuts.dedup();
+    // keep runs affordable: at most ~1500 segments
+    if cuts.len() > 1500 {
+        let step = cuts.len() / 1500 + 1;
+        cuts = cuts.into_iter().step_by(step).collect();
+    }
     steps_from_cuts(&all, &cuts, pause)
 }
 
@@ -297,4 +302,45 @@ pub fn conn_of(id: &str) -> Option<usize> {
     let s = id.strip_prefix('c')?;
     let (a, _) = s.split_once('r')?;
     a.parse().ok()
+}
+
+/// Chunked encoding with syntax variants: hex case, leading zeros, chunk extensions.
+pub fn chunk_encode_fancy(payload: &[u8], sizes: &[usize], rng: &mut Rng) -> Vec<u8> {
+    let mut o = Vec::new();
+    let mut pos = 0;
+    let mut k = 0;
+    while pos < payload.len() {
+        let s = if sizes.is_empty() {
+            payload.len() - pos
+        } else {
+            sizes[k % sizes.len()].max(1).min(payload.len() - pos)
+        };
+        k += 1;
+        let mut hex = format!("{:x}", s);
+        match rng.below(4) {
+            0 => hex = hex.to_uppercase(),
+            1 => hex = format!("{}{}", "0".repeat(rng.usize(1, 3)), hex),
+            _ => {}
+        }
+        let ext = match rng.below(5) {
+            0 => ";ext=1",
+            1 => ";name",
+            _ => "",
+        };
+        o.extend_from_slice(format!("{}{}\r\n", hex, ext).as_bytes());
+        o.extend_from_slice(&payload[pos..pos + s]);
+        o.extend_from_slice(b"\r\n");
+        pos += s;
+    }
+    o.extend_from_slice(if rng.chance(1, 4) { b"000\r\n\r\n" } else { b"0\r\n\r\n" });
+    o
+}
+
+pub fn chunk_sizes(rng: &mut Rng) -> Vec<usize> {
+    match rng.below(5) {
+        0 => vec![],
+        1 => vec![1],
+        2 => vec![*rng.pick(&[2usize, 15, 16, 255, 256, 1023, 1024, 1025, 4096, 9000])],
+        _ => (0..rng.usize(2, 5)).map(|_| rng.usize(1, 3000)).collect(),
+    }
 }
